@@ -108,6 +108,13 @@ def run(ctx: Ctx):
                 readers.add(g.name)
             if isinstance(n, (ast.For, ast.comprehension)) and attr_chain(n.iter) == frames_key:
                 readers.add(g.name)
+            # reads through the mapping API: .get / .items / .values / .setdefault / .pop / .copy, `key in table`
+            if isinstance(n, ast.Call) and isinstance(n.func, ast.Attribute) and attr_chain(n.func.value) == frames_key \
+                    and n.func.attr in ("get", "items", "values", "setdefault", "pop", "copy", "keys", "__getitem__"):
+                readers.add(g.name)
+            if isinstance(n, ast.Compare) and any(isinstance(o, (ast.In, ast.NotIn)) for o in n.ops) \
+                    and any(attr_chain(c_) == frames_key for c_ in n.comparators):
+                readers.add(g.name)
     # which call sites in __call__ reach a reader
     def reaches(fn: Func, seen=None) -> bool:
         seen = seen or set()
